@@ -21,7 +21,7 @@ N_LONGTAIL = {'quick': 60, 'thorough': 8000}    # scale regime: 110-260 requests
 N_RANDOM = {'quick': 1500, 'thorough': 400000}
 RULE = ('cases: (a) exhaustive: n in 1..N systems x priority pattern (distinct / ties / all equal) x completer position x completion '
         'timestep {0,1,3} (+ completion from outside between steps), each followed by a seeded tail of 5-30 requests from '
-        '{execute(), execute(n), execute_systems(), execute_systems(True), add_system, remove_system, complete()}; (b) random: windows '
+        '{execute(), execute(n), execute_systems(), execute_systems(True), add_system, remove_system, complete()}; (all of them on models with the default logger or with a quiet user logger; systems may be falsy objects and carry str-subclass ids); (b) random: windows '
         '(start/frequency) so that lower-ordered systems are due or not in the completing step; (e) systems whose execute() raises (fault in an earlier step, in the completing step before the completer, or the completer raising right after complete()), the caller catching and going on; (d) long tails: 110-260 requests after completion incl. execute(n) with n up to 1000, on models whose systems are idle at that timestep or that have no systems; (c) batch drivers with completion '
         'below/at/above max_timesteps. Oracle: systems ordered before the completer ran in the completing step, those after did '
         'not; after completion no execution is ever logged, clocks and the full model state are identical before and after every '
@@ -29,7 +29,7 @@ RULE = ('cases: (a) exhaustive: n in 1..N systems x priority pattern (distinct /
         '>=1 system ordered after the completer was due in the completing step; distinct by (priorities, position, timestep, tail).')
 ASSUMPTIONS = ['the clock value right after the completing step is not prescribed (the unit test counts that step); it must be frozen afterwards',
                'add_system/remove_system after completion may change the registry; only advance requests must change nothing']
-FLOORS = {'quick': {'completions_mid_step': 910, 'completions_outside': 75, 'later_system_due_in_completing_step': 500,
+FLOORS = {'quick': {'system_faults_caught': 116, 'completer_raised_after_complete': 39, 'completions_after_system_fault': 83, 'models_with_quiet_logger': 308, 'completions_mid_step': 910, 'completions_outside': 75, 'later_system_due_in_completing_step': 500,
                     'tail_execute': 2000, 'tail_execute_n': 2000, 'tail_execute_systems': 2000, 'tail_throw': 2000,
                     'model_complete_errors': 2000, 'tail_add': 1000, 'tail_remove': 500, 'batch_driver_runs': 20,
                     'pos_first': 100, 'pos_middle': 100, 'pos_last': 100, 'multi_step_past_completion': 200, 'long_tails': 30, 'long_requests_after_completion': 1000,
@@ -54,7 +54,18 @@ def fixtures():
             if self.when is not None and t == self.when:
                 self.model.complete()
 
+    # falsy-but-valid user systems
+    Logger.variants = [Logger, type('LoggerSized', (Logger,), {'__len__': lambda self: 0}), type('LoggerOff', (Logger,), {'__bool__': lambda self: False})]
     return core, collectors, Logger
+
+
+def new_model(ctx, rng, core):
+    """A model; 40% of them with a user-supplied logger on which INFO is not enabled (the library only logs at INFO)."""
+    from vlib import reps
+    if rng.random() < 0.4:
+        ctx.count('models_with_quiet_logger')
+        return core.Model(logger=reps.quiet_logger())
+    return core.Model()
 
 
 def due(s, t):
@@ -110,14 +121,15 @@ def tail(ctx, rng, core, Logger, model, log, universe=()):
 
 def completing_run(ctx, rng, prios, pos, tc, windows=None, via_n=False):
     core, collectors, Logger = fixtures()
-    model = core.Model()
+    from vlib import reps
+    model = new_model(ctx, rng, core)
     log = []
     systems = []
     for j, p in enumerate(prios):
         kw = dict(priority=p)
         if windows:
             kw.update(start=windows[j][0], frequency=windows[j][1])
-        systems.append(Logger(f's{j}', model, log, **kw))
+        systems.append(reps.pick_variant(rng, Logger.variants, 0.3)(reps.as_str(rng, f's{j}', allow_enum=False), model, log, **kw))
     for s in systems:
         model.systems.add_system(s)
     order = sorted(range(len(prios)), key=lambda j: (-prios[j], j))
@@ -133,7 +145,7 @@ def completing_run(ctx, rng, prios, pos, tc, windows=None, via_n=False):
         tlog = []
         for j, p in enumerate(prios):
             s0 = systems[j]
-            twin.systems.add_system(Logger(s0.id, twin, tlog, when=s0.when, priority=p, start=s0.start, frequency=s0.frequency))
+            twin.systems.add_system(type(s0)(s0.id, twin, tlog, when=s0.when, priority=p, start=s0.start, frequency=s0.frequency))
         for _ in range(n_req):
             twin.execute()
         ctx.count('multi_step_past_completion' if n_req > tc + 1 else 'multi_step_to_completion')
@@ -179,7 +191,7 @@ def case_ex(ctx, case):
 def case_outside(ctx, case):
     rng = ctx.rng('out', case['i'])
     core, collectors, Logger = fixtures()
-    model = core.Model()
+    model = new_model(ctx, rng, core)
     log = []
     for j in range(rng.randint(0, 5)):
         model.systems.add_system(Logger(f's{j}', model, log, priority=rng.randint(-2, 2)))
@@ -253,7 +265,7 @@ def case_long_tail(ctx, case):
     idle at the timestep where completion left it (frequency > 1, later start, expired end) or while it has no systems at all."""
     rng = ctx.rng('longtail', case['i'])
     core, collectors, Logger = fixtures()
-    model = core.Model()
+    model = new_model(ctx, rng, core)
     log = []
     style = rng.choice(['idle', 'idle', 'mixed', 'empty'])
     if style != 'empty':
@@ -325,7 +337,7 @@ def case_raising(ctx, case):
             if t in self.raise_at or (self.raise_after_complete and t == self.when):
                 raise Boom(self.id, t)
 
-    model = core.Model()
+    model = new_model(ctx, rng, core)
     log = []
     n = rng.randint(1, 5)
     tc = rng.randint(0, 5)
